@@ -28,10 +28,13 @@ func sessionProfile() *hist.Profile {
 }
 
 func checkC14(c *vk.Ctx) {
-	c.Rule = "random connect/reconnect/takeover sequences over 3 client ids on 5 connection slots (two ids have two slots, so live connections are taken over), clean start 0/1, MQTT 3.1/3.1.1/5, session expiry 0/300, QoS 1/2 messages queued and unacknowledged: " +
+	c.Rule = "random connect/reconnect/takeover sequences over 3 client ids on 5 connection slots (two ids have two slots, so live connections are taken over), clean start 0/1, MQTT 3.1/3.1.1/5, session expiry 0/300 (also changed by DISCONNECT: 300 -> 0 ends the session at once), QoS 1/2 messages queued and unacknowledged: " +
 		"CONNACK session present == (session exists and clean start 0); a resumed session keeps every subscription (later deliveries) and unacknowledged message (resends); after clean start 1 nothing of the old session is delivered or resent; the taken-over connection gets DISCONNECT 0x8E (v5), nothing after it, and is closed. nontrivial = histories with >=1 takeover or resume"
 	c.Assumptions = []string{"MQTT 3 connections being taken over receive a DISCONNECT packet, which MQTT 3 reserves for clients: recorded under C23 as known finding, tolerated here"}
 	p := sessionProfile()
+	// normal v5 DISCONNECTs may carry a Session Expiry Interval: 0 ends the session there and then (session present 0 next time)
+	p.DiscExpiry = []uint32{0, 0, 300}
+	p.DiscExpPct = 30
 	h := &histRun{Prop: "C14", Profile: p, N: c.N(400, 10000), Label: 14, Nontrivial: []string{"takeovers", "sessions_resumed"},
 		Rules: []string{"C14/", "C03/unentitled-delivery", "C03/missing-delivery", "C09/not-resent-after-reconnect", "C23/packet-after-disconnect"}}
 	h.run(c)
